@@ -124,7 +124,10 @@ def srt_site(ctx, report, ev):
         else:
             exp = {f(0): US_H, f(1): US_M, f(2): US_S}
             label = "hh:mm:ss (no fraction) -> microseconds"
-        check_affine(report, "R-AFFINE", fn, label, o.value, exp, vocab, "1")
+        # (fields of a datetime.timedelta, should the conversion go through one: a result that is not the
+        # whole duration keeps a td.days / td.seconds term, which the oracle wants to be absent)
+        check_affine(report, "R-AFFINE", fn, label, o.value, exp, vocab | {"td.days", "td.seconds"}, "1",
+                     note="hour counts of 24 and more are valid: the days part of a timedelta must not be dropped")
         exactness(report, fn, label, o.value)
         n += 1
     if n != 2:
@@ -338,6 +341,12 @@ def dfxp_site(ctx, report, ev, folder):
                 raise AnalysisError("DFXP offset time: metric case not recognised: " + o.cond_text()[:200])
             inner, floored = unwrap_floor(o.value)
             atoms = inner.atoms()
+            if len(atoms) == 1 and atoms[0].startswith("round["):
+                check_affine(report, "R-AFFINE", count, f"offset time in '{metric}' -> microseconds", o.value, {}, set(), "1",
+                             want_floor=True)
+                metrics_seen[metric] = True
+                n_count += 1
+                continue
             tc = [a for a in atoms if g("time_count") in a]
             if len(tc) != 1 or not re.fullmatch(r"(float|Fraction|Decimal)\(" + re.escape(g("time_count")) + r"\)", tc[0]):
                 raise AnalysisError("DFXP offset time: count field not recognised: " + inner.show()[:120])
